@@ -130,6 +130,11 @@ func (lp *ListParser) getBullet(styleName string, level int, itemNum int) string
 
 // extractParagraphText extracts text from a paragraph XML element.
 func extractParagraphText(p paragraphXML) string {
+	if p.InnerXML != "" {
+		// Inline content in document order
+		return inlineText(p.InnerXML)
+	}
+
 	var parts []string
 
 	// Direct text content
